@@ -66,7 +66,13 @@ def monitor(am, engine, cx, events, snaps):
                                 "cfg %s vs %s, ctx %s vs %s, status %s vs %s" % (k, a["cfg"], b["cfg"], a["ctx"], b["ctx"], a["status"], b["status"]), None))
                     break
             else:
-                if strip(snaps[-1]["log"]) != strip(tws[-1]["log"]):
+                # an onDone whose only content is an action list truncated to nothing cannot be written in the twin
+                # (an empty onDone object is "no onDone" to the parser): the twin then never processes that done.state
+                # event, so its bracket records (begin / clock / trans) are left out of the comparison
+                lost = [n.idx for n in am.nodes if n.ondone is not None and am.trans_json(n.ondone)
+                        and not am.trans_json(twin(am).nodes[n.idx].ondone)]
+                keep = (lambda l: [o for o in strip(l) if o[0] not in ("begin", "clock", "trans")]) if lost else strip
+                if keep(snaps[-1]["log"]) != keep(tws[-1]["log"]):
                     out.append(("the run with failing actions executed different actions than its fault-free truncation twin", None))
     # (c) an aborted transition leaves the configuration as it was; later events are processed
     for k in range(1, len(snaps)):
